@@ -23,7 +23,7 @@ from dimod import (BinaryQuadraticModel as BQM, QuadraticModel as QM, Constraine
 
 from harness.common import lab, rat, run_driver
 from harness.props.energy_common import (LABELS, Recipe, q8, F, fl, poly_value, rats, labs, rows_tok, adj_tok, qmb_tokens, parse_qmb,
-                                         qmb_canon, model_canon, domain, perm_of, exc_class, gen_bqm, gen_qm)
+                                         qmb_canon, model_canon, domain, perm_of, exc_class, gen_bqm, gen_qm, edit_history)
 from harness.props.c01 import Batch
 
 HALF = Fraction(1, 2)
@@ -205,81 +205,13 @@ def case_history_convert(ctx, r, B):
     vartype changes …) and *then* converted: the conversion has to be exact on every state the public API can reach, not
     only on freshly built models (the dict back-end's loops depend on the insertion order the history leaves behind)"""
     R = Recipe()
-    R.do('import copy, pickle')
     dtype = r.choice(['np.float64', 'np.float32', 'object', 'object'])
     labels, vt = gen_bqm(r, R, dtype=dtype, nmax=5)
     if len(labels) < 2 and r.random() < .8:
         return
-    kinds = set()
-    nops = r.randint(1, 5)
-    lb_lines = None
-    if dtype == 'object':
-        # replay of the whole life of the object on the dict model: building calls, history, conversion
-        lb_lines = []
-    for _ in range(nops):
-        m = R['m']
-        cur = list(m.variables)
-        free = [l for l in LABELS if l not in cur]
-        kind = r.choice(['relabel', 'relabel', 'relabel', 'relabel_copy', 'as_integers', 'swap', 'remove_readd', 'remove', 'contract', 'fix',
-                         'update', 'flip', 'scale', 'copy', 'deepcopy', 'pickle', 'cv', 'rmint', 'addquad', 'fromfile'])
-        line = None
-        if kind in ('relabel', 'relabel_copy') and cur and free:
-            k = r.randint(1, min(len(cur), len(free), 3))
-            mp = dict(zip(r.sample(cur, k), r.sample(free, k)))
-            line = f'm.relabel_variables({mp!r})' if kind == 'relabel' else f'm = m.relabel_variables({mp!r}, inplace=False)'
-        elif kind == 'swap' and len(cur) >= 2:
-            a, b = r.sample(cur, 2)
-            mp = {a: b, b: a} if r.random() < .6 or len(cur) < 3 else dict(zip(cur, cur[1:] + cur[:1]))
-            line = f'm.relabel_variables({mp!r})'
-        elif kind == 'as_integers' and cur:
-            line = 'm.relabel_variables_as_integers()'
-        elif kind == 'remove_readd' and cur:
-            v = r.choice(cur)
-            others = [u for u in cur if u != v]
-            line = f'm.remove_variable({v!r}); m.add_linear({v!r}, {fl(q8(r))})'
-            for u in r.sample(others, min(len(others), r.choice([0, 1, 2]))):
-                line += f'; m.add_quadratic({u!r}, {v!r}, {fl(q8(r))})'
-        elif kind == 'remove' and len(cur) >= 2:
-            line = f'm.remove_variable({r.choice(cur)!r})'
-        elif kind == 'contract' and len(cur) >= 2:
-            a, b = r.sample(cur, 2)
-            line = f'm.contract_variables({a!r}, {b!r})'
-        elif kind == 'fix' and len(cur) >= 2:
-            line = f'm.fix_variable({r.choice(cur)!r}, {r.choice(domain(m.vartype.name))})'
-        elif kind == 'update':
-            ol = r.sample(LABELS, r.choice([1, 2, 3]))
-            lin = {l: q8(r) for l in ol}
-            quad = {tuple(r.sample(ol, 2)): q8(r)} if len(ol) >= 2 else {}
-            line = f'm.update(BQM({lin!r}, {quad!r}, {fl(q8(r))}, {m.vartype.name!r}, dtype={dtype}))'
-        elif kind == 'flip' and cur:
-            line = f'm.flip_variable({r.choice(cur)!r})'
-        elif kind == 'scale':
-            line = f'm.scale({r.choice([2, -1, 0.5])})'
-        elif kind == 'copy':
-            line = 'm = m.copy()'
-        elif kind == 'deepcopy':
-            line = 'm = copy.deepcopy(m)'
-        elif kind == 'pickle':
-            line = 'm = pickle.loads(pickle.dumps(m))'
-        elif kind == 'fromfile' and dtype != 'object':
-            line = 'm = BQM.from_file(m.to_file())'
-        elif kind == 'cv':
-            line = f'm.change_vartype({("BINARY" if m.vartype.name == "SPIN" else "SPIN")!r}, inplace=True)'
-        elif kind == 'rmint' and m.num_interactions:
-            a, b, _ = r.choice(list(m.iter_quadratic()))
-            line = f'm.remove_interaction({a!r}, {b!r})'
-        elif kind == 'addquad' and len(cur) >= 2:
-            a, b = r.sample(cur, 2)
-            line = f'm.add_quadratic({a!r}, {b!r}, {fl(q8(r))})'
-        if line is None:
-            continue
-        try:
-            R.do(line)
-        except Exception:  # noqa  (a rejected call is C04's matter: the case is dropped, the object may be half-edited)
-            ctx.tick('history op rejected: ' + kind)
-            return
-        kinds.add(kind)
-        ctx.tick('history op before conversion: ' + kind)
+    kinds = edit_history(ctx, r, R, dtype, tag='history op before conversion')
+    if kinds is None:
+        return
     m = R['m']
     labels = list(m.variables)
     vt = m.vartype.name
